@@ -592,12 +592,16 @@ func TestVerifC19Syncer(t *testing.T) {
 			case "stop":
 				// etcd 3.5.4 can crash the whole process (nil bbolt transaction) when a range request
 				// is in flight while the embedded server shuts down: the members' traffic is cut off
-				// a moment before the stop (for them it is the same outage) and let in again after
-				// the restart
+				// a moment before the stop (for them it is the same outage)
 				bed.relay.Cut()
 				healed = false
 				time.Sleep(50 * time.Millisecond)
 				bed.vfStopServer()
+				// (open again at once: after a minute of process life the primary's own client
+				// reaches the server through its advertised URL, the relay, and the primary
+				// panics when it cannot register the cluster name during the restart)
+				bed.relay.Heal()
+				healed = true
 				serverUp = false
 				sawFault = true
 			case "start":
@@ -607,8 +611,6 @@ func TestVerifC19Syncer(t *testing.T) {
 				}
 				serverUp = true
 				justRestarted = true
-				bed.relay.Heal()
-				healed = true
 			case "cut":
 				bed.relay.Cut()
 				healed = false
